@@ -79,6 +79,7 @@ class Instance:
         self.receive: Any = None
         self.extra_after_disconnect = 0
         self.running_at_end = False
+        self.state_snaps: List[Any] = []
         self.program: List[Any] = []
 
     def body(self) -> bytes:
@@ -265,6 +266,8 @@ class ScriptedApp:
                 return
             elif name == "set_state":
                 inst.scope["state"][op[1]] = op[2]
+            elif name == "snap_state":
+                inst.state_snaps.append((self.log.now(), dict(inst.scope.get("state", {}))))
             elif name == "wait_quiet":
                 # wait until the wire has been quiet for a full (virtual) second
                 last = -1
